@@ -131,6 +131,14 @@ func (g *c04gen) one() {
 	case 4:
 		g.add("STATUS", cat("STATUS ", g.str(mb), " (MESSAGES UIDNEXT)"))
 	case 5:
+		if g.t.Choose(3) == 0 {
+			// the extended forms: selection options, several patterns, return options - well formed and not
+			g.add("LIST", cat("LIST ", []string{
+				`"" (INBOX "A*")`, `(SUBSCRIBED) "" ("*" %)`, `"" ("*") RETURN (CHILDREN STATUS (MESSAGES))`, `"" ()`, `"" ((`, `"" (INBOX (%))`, `"" (`,
+				`(SUBSCRIBED (REMOTE)) "" *`, `"" (INBOX) RETURN ((`, `() "" ("a" "b") RETURN ()`, `"" ("x" ) `, `"" (% %`,
+			}[g.t.Choose(12)]))
+			return
+		}
 		g.add("LIST", cat([]string{"LIST ", "LSUB "}[g.t.Choose(2)], g.str(""), " ", g.str("*")))
 	case 6, 7, 8:
 		// APPEND: the message literal
@@ -229,6 +237,10 @@ func runC04(r *R) {
 		if t.Choose(3) != 0 {
 			g.cmds = append(g.cmds, rawCmd{Tag: g.tag(), Name: "SELECT", Parts: cat(`SELECT INBOX`)})
 		}
+		if t.Choose(3) == 0 {
+			// (with UTF8=ACCEPT / IMAP4rev2 enabled the server's own encoder quotes 8-bit strings)
+			g.cmds = append(g.cmds, rawCmd{Tag: g.tag(), Name: "SIMPLE", Parts: cat(`ENABLE IMAP4rev2 UTF8=ACCEPT`)})
+		}
 	}
 	n := 1 + t.Choose(10)
 	for i := 0; i < n; i++ {
@@ -237,6 +249,11 @@ func runC04(r *R) {
 	cfg := r.SchedConfig()
 	b := newStubBackend()
 	b.fetchLit = fetchLit
+	// 1 run in 2: the backend refuses some APPENDs (without reading the message, or after reading part of it)
+	if refuse := t.Choose(2) == 1; refuse {
+		failTape := simrt.NewTape(uint64(t.Choose(1<<20)) + 31)
+		b.failEach = func(method string) bool { return method == "Append" && failTape.Choose(2) == 0 }
+	}
 	b.idleHook = func(sess int, w *imapserver.UpdateWriter, stop <-chan struct{}) {
 		for i := 0; i < idleUpdates; i++ {
 			tm := time.NewTimer(time.Duration(1+i) * 20 * time.Second)
